@@ -352,7 +352,7 @@ def run(ctx):
                 'single cell (every raw script over {0.02,0.3,0.6,0.97}^depth, plus the reference-led tree of the lineage single-cell reference with conformance of every row). Oracles on the real rows: fixed point of the repeated rules; '
                 'counter advances by exactly 1 and ODE target by rate*dt between consecutive rows from the second on; a scheduled rule leaves '
                 'rows up to its time identical to the same script without the rule and has fired afterwards; plus conformance with the '
-                'reference simulator whose propensities are computed after the rules. states = (model, mode, grid) configurations.')
+                'reference simulator whose propensities are computed after the rules. Two reaction contexts deliver their product from the delay queue in a quiet interval (delay modes); a rule that fires once is declared before the repeated rule that reads its target (all modes). states = (model, mode, grid) configurations.')
     ctx.assumptions = ['direct-method mapping as in C05', 'scheduled times are exact grid elements; dt = grid step (exact binary fraction)',
                        'deterministic mode: fixed-point oracle only, as the property states']
     pmap(run_config, cfgs, ctx, nshards=len(cfgs))
